@@ -386,6 +386,12 @@ class Ctx:
                         di = sym.canon(ca.im - cb.im, self.path)
                         if sym._numeral(dr) == 0 and sym._numeral(di) == 0:
                             return True
+                        # not syntactically equal as expanded polynomials: compare as single fractions (nested divisions)
+                        if sym._denominators(dr) or sym._denominators(di):
+                            self.path.divisors.clear()            # drop what canon() looked at; ratfun_zero records its own
+                            self.path.divisors.update(saved)
+                            if sym.ratfun_zero(ca.re - cb.re, self.path) and sym.ratfun_zero(ca.im - cb.im, self.path):
+                                return True
                 except Exception:
                     pass
                 # the shortcut was not used: do not keep the divisors it looked at
@@ -591,7 +597,8 @@ def _z3_default(assertions, timeout_ms):
 
 def _z3_nlsat(assertions, timeout_ms):
     try:
-        t = z3.Then('simplify', 'purify-arith', 'solve-eqs', 'qfnra-nlsat')
+        # TryFor: the tactic solver does not honour the 'timeout' parameter reliably (a C02 query ran for 16 minutes)
+        t = z3.TryFor(z3.Then('simplify', 'purify-arith', 'solve-eqs', 'qfnra-nlsat'), int(timeout_ms))
         s = t.solver()
         s.set('timeout', int(timeout_ms))
         s.add(*assertions)
@@ -941,7 +948,7 @@ def source_hash(target):
         return "unresolved:%s" % type(e).__name__
 
 
-def verify_contract(cdef, tier='quick', seed=0):
+def verify_contract(cdef, tier='quick', seed=0, refuted=None):
     """explore + discharge + replay one contract; returns a plain dict"""
     t_start = time.time()
     timeout_ms = cdef.timeout_ms or (20000 if tier == 'quick' else 120000)
@@ -1025,7 +1032,22 @@ def verify_contract(cdef, tier='quick', seed=0):
             if z3.is_true(cond):
                 o['backends']['simplifier'] = o['backends'].get('simplifier', 0) + 1
                 continue
-            res, model, backend, secs = solve_split(hyp_ax.with_pc(rec['pc'], facts), cond, timeout_ms)
+            if os.environ.get('PYVC_TRACE'):
+                print("   [vc>] %-40s %s" % (rec['name'], str(cond)[:300].replace('\n', ' ')), flush=True)
+            if refuted and rec['name'] in refuted:
+                # the clause already fails on a native run: one short attempt (a VC of another path may well hold), no long stages
+                res, model, backend, secs = solve_split(hyp_ax.with_pc(rec['pc'], facts), cond, 2500)
+                if res != 'unsat':
+                    f = refuted[rec['name']]
+                    o['solver_s'] += secs
+                    out['solver_s'] += secs
+                    o['status'] = 'violated'
+                    o['replay'] = {'clause': rec['name'], 'reproduced': True, 'how': 'native-crosscheck', 'inputs': f['inputs'],
+                                   'observed': f['observed'], 'summary': "clause '%s' fails natively on a cross-check input" % rec['name']}
+                    o['detail'] = o['replay']['summary']
+                    continue
+            else:
+                res, model, backend, secs = solve_split(hyp_ax.with_pc(rec['pc'], facts), cond, timeout_ms)
             if os.environ.get('PYVC_TRACE'):
                 print("   [vc] %-40s %-8s %-9s %.2fs" % (rec['name'], res, backend, secs), flush=True)
             o['solver_s'] += secs
